@@ -166,6 +166,12 @@ def pieces (p : Nat → Bool) : Bytes → List Bytes
 /-- maximal runs of non-delimiters -/
 def splitSpec (p : Nat → Bool) (s : Bytes) : List Bytes := (pieces p s).filter (fun t => !t.isEmpty)
 
+/-- the sentence rebuilt from a token list with single delimiters -/
+def joinWith (d : Nat) : List Bytes → Bytes
+  | [] => []
+  | [t] => t
+  | t :: u :: rest => t ++ d :: joinWith d (u :: rest)
+
 /-! ## the language model seen through the virtual interface -/
 
 /-- `lm::FullScoreReturn` as far as the Python module reads it -/
